@@ -410,4 +410,97 @@ example : copyString (some [97, 98, 0]) 2 [120, 120, 120] 3 = .ok [97, 98, 120] 
     generated Fortran always passes `c_var_len = elem_len`) -/
 theorem copyString_no_blank_fill : copyString (some [97, 0]) 1 [120, 120] 2 = .ok [97, 120] := by decide
 
+/-! ## 8. `size_t` -> `int`: where the narrowing matters
+
+The theorems above assume texts shorter than 2^31 bytes (`hfit`).  At 2^31 bytes the `int` that
+receives `strlen(..)` is negative and both helpers leave their buffers. -/
+
+/-- `int nm = strlen(dest)` wraps to -2^31: the fill starts 2 GiB before the variable -/
+theorem strBlankFill_narrowing_oob (str post : Buf) (ndest : Nat) (h0 : ∀ c ∈ str, c ≠ NUL)
+    (hlen : str.length = 2147483648) :
+    strBlankFill (str ++ NUL :: post) ndest = .oob := by
+  have hn : narrow32 str.length = -2147483648 := by rw [hlen, narrow32_two31]
+  have h1 : ((ndest : Int) > -2147483648) := by omega
+  simp [strBlankFill, strlen_app str post h0, hn, strBlankFillTail, h1]
+
+/-- `nsrc = strlen(src)` wraps to -2^31: `memcpy` is asked for a negative (huge) count -/
+theorem strCopy_narrowing_oob (dest : Buf) (ndest : Nat) (str post : Buf) (h0 : ∀ c ∈ str, c ≠ NUL)
+    (hlen : str.length = 2147483648) :
+    strCopy dest ndest (some (str ++ NUL :: post)) (-1) = .oob := by
+  have hn : narrow32 str.length = -2147483648 := by rw [hlen, narrow32_two31]
+  have h1 : ((-2147483648 : Int) < (ndest : Int)) := by omega
+  simp [strCopy, strlen_app str post h0, hn, strCopyTail, h1]
+
+/-- texts of every length without NUL exist (in particular of length 2^31) -/
+example (n : Nat) : ∃ s : Buf, (∀ c ∈ s, c ≠ NUL) ∧ s.length = n :=
+  ⟨List.replicate n 97, by intro c hc; rw [(List.mem_replicate.mp hc).2]; decide, by simp⟩
+
+/-! ## 9. `std::vector<std::string>` arguments: `CHARACTER(len) a(size)` -/
+
+private theorem vecStringIn_aux (pre post : Buf) (len : Nat) (slices : List Buf)
+    (h : ∀ s ∈ slices, s.length = len) :
+    vecStringIn (pre ++ (slices.flatten ++ post)) len pre.length slices.length = .ok (slices.map rtrim) := by
+  induction slices generalizing pre with
+  | nil => simp [vecStringIn]
+  | cons s ss ih =>
+    have hs : s.length = len := h s (by simp)
+    have hlt := lenTrimAt_app pre s (ss.flatten ++ post)
+    rw [hs] at hlt
+    simp only [List.flatten_cons, List.append_assoc] at hlt ⊢
+    simp only [vecStringIn, List.length_cons, hlt, Res.ok_bind]
+    have hsplit : s = rtrim s ++ s.drop (rtrim s).length := by
+      conv => lhs; rw [← List.take_append_drop (rtrim s).length s, ← rtrim_prefix]
+    have hcp := memcpy_app [] (List.replicate (rtrim s).length UNINIT) [] pre (rtrim s)
+      (s.drop (rtrim s).length ++ (ss.flatten ++ post)) (by simp)
+    simp only [List.nil_append, List.length_nil, List.append_nil] at hcp
+    rw [← List.append_assoc (rtrim s), ← hsplit] at hcp
+    rw [hcp]
+    have := ih (pre ++ s) (fun x hx => h x (by simp [hx]))
+    simp only [List.append_assoc, List.length_append, hs] at this
+    simp [this]
+
+/-- intent(in): element `i` of the vector is `rtrim` of element `i` of the Fortran array; only
+    `a(1:size)` is read -/
+theorem vecStringIn_spec (slices : List Buf) (len : Nat) (post : Buf) (h : ∀ s ∈ slices, s.length = len) :
+    vecStringIn (slices.flatten ++ post) len 0 slices.length = .ok (slices.map rtrim) := by
+  simpa using vecStringIn_aux [] post len slices h
+
+example : vecStringIn [97, 32, 32, 32, 98, 98] 2 0 3 = .ok [[97], [], [98, 98]] := by decide
+
+private theorem vecStringOut_aux (pre extra : Buf) (len : Nat) (slices : List Buf) (vs : List (List Nat))
+    (h : ∀ s ∈ slices, s.length = len) (h32 : ∀ v ∈ vs, v.length < 2147483648) :
+    vecStringOut (pre ++ (slices.flatten ++ extra)) len pre.length slices.length vs
+      = .ok (pre ++ ((mergeOut len slices vs).flatten ++ extra)) := by
+  induction slices generalizing pre vs with
+  | nil => cases vs <;> simp [vecStringOut, mergeOut]
+  | cons s ss ih =>
+    cases vs with
+    | nil => simp [vecStringOut, mergeOut]
+    | cons v vs =>
+      have hs : s.length = len := h s (by simp)
+      have hv : v.length < 2147483648 := h32 v (by simp)
+      have hc := strCopy_counted s (ss.flatten ++ extra) (v ++ [NUL]) v.length (by simp)
+      rw [hs] at hc
+      have htk : List.take v.length (v ++ [NUL]) = v := by simp
+      rw [htk] at hc
+      simp only [vecStringOut, List.length_cons, List.flatten_cons, List.append_assoc, strCopyAt,
+        narrow32_of_lt _ hv]
+      have hle : pre.length ≤ (pre ++ (s ++ (ss.flatten ++ extra))).length := by simp
+      simp only [hle, if_true, List.drop_left, List.take_left, hc, Res.map_ok, Res.ok_bind]
+      have := ih (pre ++ fassign len v) vs (fun x hx => h x (by simp [hx])) (fun x hx => h32 x (by simp [hx]))
+      simp only [List.append_assoc, List.length_append, fassign_length] at this
+      rw [this]
+      simp [mergeOut, fassign]
+
+/-- intent(out): the first `min(size, v.size())` elements of the Fortran array become the texts
+    truncated or blank-padded to `len`; nothing else is written -/
+theorem vecStringOut_spec (slices : List Buf) (len : Nat) (extra : Buf) (vs : List (List Nat))
+    (h : ∀ s ∈ slices, s.length = len) (h32 : ∀ v ∈ vs, v.length < 2147483648) :
+    vecStringOut (slices.flatten ++ extra) len 0 slices.length vs
+      = .ok ((mergeOut len slices vs).flatten ++ extra) := by
+  simpa using vecStringOut_aux [] extra len slices vs h h32
+
+example : vecStringOut [120, 120, 120, 120, 120, 120] 2 0 3 [[97], [98, 98, 98]]
+    = .ok [97, 32, 98, 98, 120, 120] := by decide
+
 end Shroud.Str
